@@ -68,7 +68,7 @@ fn direct_strategy(max_n: usize) -> BoxedStrategy<SearchCase> {
                 (any::<bool>(), any::<bool>(), any::<u16>(), any::<u16>()),
                 // weight factors in (0, 1]
                 prop_oneof![Just(1.0f64), (0.01f64..1.0).prop_map(|v| (v * 100.0).round() / 100.0)],
-                0u8..4,
+                0u8..6,
             )
         })
         .prop_flat_map(|(heuristic, net, trav, state, allowed, misc, wf, wf_source)| {
@@ -89,7 +89,16 @@ fn direct_strategy(max_n: usize) -> BoxedStrategy<SearchCase> {
             // where the weight factor comes from: config, query, query overriding config, or
             // a query factor turning configured Dijkstra into A*
             let (alg, query_wf) = if !heuristic {
-                (AlgSpec::Dijkstra, None)
+                // free lengths: no heuristic may be in force - either plain Dijkstra, or A*
+                // configured with any factor and switched off by a query factor of exactly 0
+                match wf_source {
+                    4 => (AlgSpec::AStar { wf: Some(7.0) }, Some(0.0)),
+                    5 => (AlgSpec::AStar { wf: None }, Some(0.0)),
+                    _ => (AlgSpec::Dijkstra, None),
+                }
+            } else if wf_source >= 4 {
+                // metric network, inadmissible configured factor, query asks for the exact search
+                (AlgSpec::AStar { wf: Some(25.0) }, Some(0.0))
             } else {
                 match wf_source {
                     0 => (AlgSpec::AStar { wf: Some(wf) }, None),
@@ -305,7 +314,7 @@ impl Prop for C02 {
         "C02"
     }
     fn rule(&self) -> String {
-        "generated: Dijkstra on networks with free lengths, A* (weight factor in (0,1] from configuration, default, query override, or a query factor on configured Dijkstra) on metrically consistent networks (length >= 1.002 x great-circle + 1 m); distance or speed-table traversal in all unit combinations; non-negative weights with positive sum incl. zeros; rates raw / factor / combined; optional non-negative per-edge surcharge; optional edge-local restriction; forward and reverse; vertex and edge orientation; no access model; one case in 13 goes through a real application built from files whose configuration differs from the objective where the query overrides weights (all, or only some: replacing, not merging), vehicle rates (all, or only the distance rate: the map replaces the configured one and an unnamed feature costs nothing) or the weight factor. Oracles: (1) route cost = label-correcting reference optimum over the implementation's own per-edge costs (1e-9), (2) reference cost of the returned route under SI units <= reference optimum x 1.003, (3) A* cost = Dijkstra cost. non-trivial = returned route has >= 2 edges and at least one other simple origin-destination path exists".to_string()
+        "generated: Dijkstra on networks with free lengths, A* (weight factor in (0,1] from configuration, default, query override, a query factor on configured Dijkstra, or a query factor of exactly 0 switching off any configured factor - also on free lengths) on metrically consistent networks (length >= 1.002 x great-circle + 1 m); distance or speed-table traversal in all unit combinations; non-negative weights with positive sum incl. zeros; rates raw / factor / combined; optional non-negative per-edge surcharge; optional edge-local restriction; forward and reverse; vertex and edge orientation; no access model; one case in 13 goes through a real application built from files whose configuration differs from the objective where the query overrides weights (all, or only some: replacing, not merging), vehicle rates (all, or only the distance rate: the map replaces the configured one and an unnamed feature costs nothing) or the weight factor. Oracles: (1) route cost = label-correcting reference optimum over the implementation's own per-edge costs (1e-9), (2) reference cost of the returned route under SI units <= reference optimum x 1.003, (3) A* cost = Dijkstra cost. non-trivial = returned route has >= 2 edges and at least one other simple origin-destination path exists".to_string()
     }
     fn strategy(&self, tier: Tier) -> BoxedStrategy<C02Case> {
         let n = tier.pick(14, 60);
